@@ -83,7 +83,7 @@ func selfTest() error {
 		if sx.Cmp(k.X) != 0 || sy.Cmp(k.Y) != 0 {
 			return fmt.Errorf("%s: public point differs from the stdlib/brainpool scalar multiplication", cn)
 		}
-		for _, h := range Hashes {
+		for _, h := range []Hash{SHA1, SHA256, SHA512} { // shorter than, equal to and longer than most orders
 			d := h.Sum(msg)
 			r, s := k.SignDigest(d)
 			r2, s2 := k.SignDigest(d)
